@@ -3,6 +3,16 @@ import vlib
 import gen_formats
 
 PID = "C17"
+MANIFEST = {
+    "technique": "Lean 4 theorems (bv_decide, all 2^64 displacements per format) over a hand model of codewriter.cpp + regenerated format list + C++/Lean correspondence",
+    "text": "For each of the OffsetFormats the sources construct (list regenerated from /repo on every run and proved to be a subset of the "
+            "proved formats) Lean proves for every 64-bit displacement: accepted => the patched word decodes (independent spec) to exactly that "
+            "displacement and no bit outside the field changes; refused => no field content designates it. The model is tied to "
+            "CodeWriterUtils::encode_offset32/64 and write_offset by running both on boundary, random and bulk-exhaustive inputs; the Lean "
+            "monitor (the theorem's predicate) judges every answer of the real code.",
+    "note": "Trusted: Lean kernel + bv_decide certificate axioms; Spec/Offset.lean as the meaning of a displacement field; gen_formats.py; "
+            "the harness/driver diff. Thumb/A32 formats are modelled, not proved (no compiled backend uses them).",
+}
 MODS = ["AsmjitVerif.Props.C17"]
 TYPECODE = {"signed": 0, "unsigned": 1, "a64Adr": 2, "a64Adrp": 3}
 M64 = (1 << 64) - 1
